@@ -93,6 +93,33 @@ class LazySeq:
         return self.L
 
 
+class SizedIterable:
+    """a result-set like source: cheap __len__, elements produced one by one by __iter__, no subscription"""
+
+    def __init__(self, L):
+        self.c = Counter(L)
+        self.L = L
+
+    def __len__(self):
+        return self.L
+
+    def __iter__(self):
+        return self.c
+
+
+class MappingLikeIterable(SizedIterable):
+    """BTree-like: subscription by key (so not a sequence for the heuristics), iteration is lazy"""
+
+    def keys(self):
+        return self
+
+    def get(self, k, default=None):
+        return default
+
+    def __getitem__(self, k):
+        raise KeyError(k)
+
+
 _rowre = re.compile(r'R (\S+) (\S+) (\S+) (\S+) (\S+) (\S+) (\S+) (\S+) (\S+) (\S+);')
 
 
@@ -117,6 +144,11 @@ def observe(par, kind='vars', seqkind='list', as_str=False, extra=''):
     elif seqkind == 'genfn':
         c = Counter(L)
         seq = (x for x in c)
+        pulls = lambda: c.n  # noqa
+    elif seqkind in ('sized', 'maplike'):
+        s_ = (SizedIterable if seqkind == 'sized' else MappingLikeIterable)(L)
+        c = s_.c
+        seq = s_
         pulls = lambda: c.n  # noqa
     elif seqkind == 'lazy':
         c = LazySeq(L)
